@@ -12,8 +12,8 @@ RULE = (
     "single nodes and marked inline content); ~45 operations, each on a fresh Transform: replace, "
     "replace_with, insert, delete, replace_range, replace_range_with, delete_range and "
     "replace_step(doc,from,to,slice) at uniform and depth-compatible (from,to). Totality class "
-    "(basic, list, strict, title, iso, table, isolist, topmarks): any exception or exceeded LINE "
-    "budget is a violation. Every schema (also structure, fixed, random well-founded): result valid; "
+    "(basic, list, strict, title, iso, table, isolist, topmarks and the two other schemas of the upstream "
+    "tests, structure and fixed): any exception or exceeded LINE budget is a violation. Every schema (also structure, fixed, random well-founded): result valid; "
     "text before/after the range unchanged incl. marks; text in between is an in-order subsequence of "
     "the slice's text; leaves before/after embed in order, extra leaves are slice leaves or default "
     "fillers. distinct = (schema, op, depth(from), depth(to), open sides, emitted step kinds, range "
@@ -242,7 +242,7 @@ def case(ctx, rnd, i):
         ctx.count("op:" + opname)
         ctx.ev()
         det = {**base, "op": opname, "args": args}
-        mech = {"op": opname, "schema_class": "totality" if sch.totality else sch.cls, "schema": sid,
+        mech = {"op": opname, "schema_class": "totality" if sch.totality else sch.cls, "schema": sid, "flexible": sch.id in schemas.FLEXIBLE,
                 "slice_node_open_both_sides_non_prefix": slice_fact}
         tr = Transform(d)
         arm_fitter_probe()
@@ -262,13 +262,14 @@ def case(ctx, rnd, i):
         except Exception as e:
             ctx.count("ops_raised")
             internal = not isinstance(e, ValueError) or isinstance(e, UnicodeError)
-            if sch.totality:
+            if sch.totality or sch.id in ("fixed", "structure"):
                 import traceback
                 ctx.violation("raised", "%s raised %s: %s" % (opname, type(e).__name__, e),
                               {**det, "trace": traceback.format_exc()[-1200:]}, {**mech, "exc": type(e).__name__, "msg": _msgclass(e)})
             else:
                 ctx.count("ops_raised_outside_totality_class:%s" % ("internal" if internal else "reported"))
                 ctx.count("ops_raised_in_schema:%s" % sid)
+                ctx.count("raised_detail:%s:%s:%s:%s" % (sid, opname, type(e).__name__, _msgclass(e)))
                 ctx.cover([sid, opname, "raised", type(e).__name__])
             continue
         ctx.count("ops_returned")
